@@ -44,17 +44,18 @@ pub fn run(ctx: &Ctx) -> i32 {
     let want = Want::all();
     let shapes: Vec<(usize, usize)> = if ctx.tier == Tier::Thorough { vec![(2, 3), (3, 2), (1, 4), (4, 1), (3, 3), (2, 5), (5, 2)] } else { vec![(2, 3), (3, 2), (1, 4), (4, 1)] };
     // variant: 0 plain, 1 one linked cell, 2 one tilemap layer, 3 one hidden layer, 4 non-Normal blend, 5 hidden group parent,
-    // 6 every layer at opacity 255 with cels fully inside the canvas and reduced cel opacity
+    // 6 every layer at opacity 255 with cels fully inside the canvas and reduced cel opacity,
+    // 7 / 8 the lowest / highest layer hidden and a non-zero z-index in every cel chunk
     let mut cases = Vec::new();
     for (si, (nf, nl)) in shapes.iter().enumerate() {
         for m in 0..(1u32 << (nf * nl)) {
-            for variant in 0..7 {
+            for variant in 0..9 {
                 cases.push((si, m, variant));
             }
         }
     }
     let fam = "cells";
-    ctx.family(fam, cases.len() as u64, "shapes (frames,layers) in {(2,3),(3,2),(1,4),(4,1)} (thorough: + (3,3),(2,5),(5,2)): every subset of the F*L cells present, each with unique offset, pixels, opacity and user-data record; variants: plain / one linked cell / a tilemap layer / a hidden layer / a non-Normal blend mode / a hidden group parent / all layers at opacity 255 with in-canvas cels of reduced cel opacity. Three routes must agree; single-visible-layer frames must equal the cel image; tilemap image must equal its cel image (checked directly on the library's outputs and against the model)", true);
+    ctx.family(fam, cases.len() as u64, "shapes (frames,layers) in {(2,3),(3,2),(1,4),(4,1)} (thorough: + (3,3),(2,5),(5,2)): every subset of the F*L cells present, each with unique offset, pixels, opacity and user-data record; variants: plain / one linked cell / a tilemap layer / a hidden layer / a non-Normal blend mode / a hidden group parent / all layers at opacity 255 with in-canvas cels of reduced cel opacity / a non-zero z-index field in every cel chunk with the lowest or the highest layer hidden. Three routes must agree; single-visible-layer frames must equal the cel image; tilemap image must equal its cel image (checked directly on the library's outputs and against the model)", true);
     let fmt = Fmt::Rgba;
     cases.par_iter().for_each(|(si, m, variant)| {
         let case = || format!("shape={:?} present={:b} variant={}", shapes[*si], m, variant);
@@ -78,7 +79,10 @@ pub fn run(ctx: &Ctx) -> i32 {
         for l in 0..nl {
             let mut ly = if tm_layer == Some(l) { Layer::tilemap(&format!("l{}", l), 4) } else { Layer::image(&format!("l{}", l)) };
             ly.opacity = if *variant == 6 { 255 } else { 255 - 10 * l as u8 };
-            if *variant == 3 && l == 0 {
+            if (*variant == 3 || *variant == 7) && l == 0 {
+                ly.flags = 2;
+            }
+            if *variant == 8 && l + 1 == nl {
                 ly.flags = 2;
             }
             if *variant == 4 {
@@ -108,6 +112,13 @@ pub fn run(ctx: &Ctx) -> i32 {
                     }
                     raw_cel(li, x, y, op, 2, 2, pixels(&fmt, 2, 2, uid + 1, (0, 0)))
                 };
+                let mut body = body;
+                if *variant >= 7 {
+                    // the cel chunk's z-index field: the property composes by layer index only
+                    if let Body::Cel(c) = &mut body {
+                        c.z_index = [1i16, -1, 2, -2, 32767, -32768, 3, -3][(uid as usize + *variant) % 8];
+                    }
+                }
                 f.frames[fr].push(body);
                 f.frames[fr].push(Body::UserData(UserData::both(&format!("cel {} {}", fr, l), [uid as u8, 1, 2, 3])));
             }
